@@ -21,6 +21,7 @@ func runC15(c *core.Ctx) core.Meta {
 	c.BuildSSA()
 	checkROBWiring(c)
 	p := NewPkgInfo(c, robPkg)
+	checkBuilderPassThrough(c, "R15.12", "The reorder buffer admits requests while fewer than bufferSize transactions are in flight: a Build that raises a small configured capacity to the width lets it hold more than it was configured for.", p, map[string]string{"ReorderBuffer.bufferSize": "bufferSize", "ReorderBuffer.numReqPerCycle": "numReqPerCycle"})
 	const listField = "ReorderBuffer.transactions"
 	const tableField = "ReorderBuffer.toBottomReqIDToTransactionTable"
 
